@@ -239,6 +239,46 @@ def model_check(module, cfg, expect_ok=True, **kw):
 
 
 # --------------------------------------------------------------------------- trace validation
+def split_traces(trace_files, reset="R", parts=None):
+    """Re-shard NDJSON traces at execution boundaries (reset events) into about `parts` files of similar size."""
+    parts = parts or NCPU
+    execs = []
+    for tf in trace_files:
+        cur = []
+        for line in Path(tf).read_text().splitlines():
+            if not line.strip():
+                continue
+            is_reset = line.startswith('{"e":"%s"' % reset) or ('"e":"%s"' % reset) in line[:400] and json.loads(line).get("e") == reset
+            is_end = '"e":"END"' in line[:40]
+            if is_end:
+                continue
+            if is_reset and cur:
+                execs.append(cur)
+                cur = []
+            cur.append(line)
+        if cur:
+            execs.append(cur)
+    if not execs:
+        return list(trace_files)
+    execs.sort(key=lambda e: -sum(len(x) for x in e))
+    buckets = [[] for _ in range(min(parts, len(execs)))]
+    sizes = [0] * len(buckets)
+    for e in execs:
+        i = sizes.index(min(sizes))
+        buckets[i].append(e)
+        sizes[i] += sum(len(x) for x in e)
+    base = Path(trace_files[0]).parent
+    out = []
+    for i, b in enumerate(buckets):
+        p = base / f"resharded.{i}.ndjson"
+        with open(p, "w") as f:
+            for e in b:
+                f.write("\n".join(e) + "\n")
+            f.write('{"e":"END"}\n')
+        out.append(p)
+    return out
+
+
 def validate_traces(trace_module, trace_files, constants=None, timeout=900, label="trace", xmx="3g"):
     """Validate each NDJSON trace file with spec/<trace_module>.tla (one TLC per file, in parallel).
 
